@@ -67,7 +67,7 @@ def programs(tier, pid):
         for p in ps:
             p["crash"] = True
             p["maxstates"] = 12000 if tier == "quick" else 150000
-            p["tear"] = [0, 1, 20, -2] if tier == "quick" else [-1]
+            p["tear"] = [0, 1, 20, -2] if tier == "quick" else ([0, 1, 2, 3] + list(range(4, 240, 4)) + [-2, -3])
             p["reps"] = 1 if tier == "quick" else 2
             names = [t["name"] for t in p["tasks"]]
             p["failsets"] = [[]] + [[n] for n in names]
